@@ -40,7 +40,28 @@ def gen(rng, tier):
             docs.append((d0 + [50] * rng.randint(0, 5))[:18])
         for _ in range(rng.randint(2, 7)):
             kind = rng.choice(["exact", "window", "missing", "far", "reversed", "noise", "empty", "dense",
-                               "alias", "straddle", "sparse", "crowded"])
+                               "alias", "straddle", "sparse", "crowded", "stale64"])
+            if kind == "stale64":
+                # occurrences exactly 64 before the window's terms, one term exactly length+slop before the first one
+                # (the shape on which a stale position bit shadows the real continuation: known finding D27)
+                mw = L + slop
+                p = 64 + mw + rng.randint(0, 30)
+                win = [p + j for j in range(L)] if rng.random() < 0.6 or L + slop > 18 else \
+                    sorted(rng.sample(range(p, p + min(mw, 18)), L))
+                win[0] = p
+                d = [50] * (win[-1] + 1 + rng.randint(0, 3))
+                for j, q in enumerate(win):
+                    d[q] = ph[j]
+                    if j == 1 and p - 64 >= 0:
+                        d[p - 64] = ph[1]
+                    elif j >= 2 and q - 64 >= 0 and rng.random() < 0.9:
+                        d[q - 64] = ph[j]
+                if p - 64 - mw >= 0:
+                    d[p - 64 - mw] = ph[0]
+                if p - mw >= 0 and d[p - mw] == 50:
+                    d[p - mw] = ph[1]
+                docs.append(d)
+                continue
             ln = rng.choice([rng.randint(1, 25), rng.randint(20, 120), rng.randint(100, 400 if i % 7 == 0 else 150)])
             base = [rng.choice([50, 51, 52]) for _ in range(ln)]
             if kind == "empty":
@@ -102,9 +123,22 @@ def gen(rng, tier):
 
 
 impl = K.impl_index_queries
-model_req = K.model_req_index
 spec_req = K.spec_req_index
-model_decode = B.model_decode
+
+
+def model_req(case):
+    """the faithful model AND the diagnostic variant (stale position bit cleared, Span/Span_Variant.v): the variant is
+    used only by the known-finding classifier below"""
+    from harness.common import sx
+    ph, slop = case["queries"][0][1], case["queries"][0][2]
+    return sx(["index_query", 0, len(case["docs"]) + 1, K.docs_sx(case["docs"]), [["slop", ph, slop], ["slopv", ph, slop]]])
+
+
+def model_decode(c, r):
+    if r[0] != "ok":
+        return {"build_exc": r[1]} if r[0] == "exc" else {"modelfault": r}
+    vals = [(["ok", v[1]] if v[0] == "ok" else (["exc", v[1]] if v[0] == "exc" else ["modelfault", v])) for v in r[1]]
+    return {"q": vals[:1], "x": [], "variant": vals[1:2]}
 
 
 def spec_decode(c, r):
@@ -136,6 +170,18 @@ def equal(case, a, b):
     if b.get("spec"):
         return _clauses_ok(case, a["q"][0], b["q"][0])
     return a["q"] == b["q"]
+
+
+def _clf_stale_position_bit(case, params, ir=None, m=None, sp=None):
+    """KNOWN FINDING D27 (stale position bit in _span_freqs): the implementation agrees with the faithful model (checked by
+    the caller), violates a clause, and the variant of the model that clears the position bit of a width-rejected
+    continuation satisfies every clause on the same input.  Any other cause is still reported as a violation."""
+    if not (isinstance(m, dict) and m.get("variant") and isinstance(sp, dict) and sp.get("q")):
+        return False
+    return _clauses_ok(case, m["variant"][0], sp["q"][0])
+
+
+CLASSIFIERS = {"stale_position_bit": _clf_stale_position_bit}
 
 
 def nontrivial(case, r):
